@@ -1,6 +1,6 @@
 """C06 Execution and code generation stay inside their buffers for every program."""
 import astq
-from rules import cgsize, decode, driver, dsinit, membound, sshash
+from rules import cgsize, decode, driver, dsinit, membound, sshash, jitcross, rv64
 
 LEVEL = 'other'
 TECHNIQUE = 'max-plus abstract interpretation of the x86 emitter against the assembled fragment sizes, mask-set and typestate rules on every scratchpad address of the interpreter, interval arithmetic on dataset/cache indices, constant agreement C++ vs .S'
@@ -24,3 +24,6 @@ def run(ctx, R):
     driver.rule_api_io(ctx, R, F)
     membound.rule_b2_inbound(ctx, R, F)
     sshash.rule_size(ctx, R, F)
+    jitcross.rule_cgsize_a64(ctx, R, F)
+    rv64.rule_cgsize(ctx, R, F)
+    rv64.rule_rcppool(ctx, R, F)
